@@ -292,6 +292,35 @@ theorem derived_len_eq_sum (fs : List Val) (k : Nat) (v : Val) :
   refine ⟨?_, ?_, ?_, ?_, ?_, ?_, ?_, ?_, ?_⟩ <;>
     simp [byteLen, sumLen_eq_sum, foldLen_eq]
 
+/-- **Fixed-size arrays `[T; N]` count every element, in order** — not the first element times `N`:
+    the length is the sum of the elements' lengths, appending an element adds exactly its own
+    length, an empty array measures 0, and for elements of one common length `k` (and only
+    then, in general) this is `N * k`.  Holds equally for an array that is a field of a derived
+    struct or of the active enum variant. -/
+theorem array_len_eq_sum (vs fs : List Val) (x : Val) (k n : Nat) :
+    byteLen (.array vs) = (vs.map byteLen).sum ∧
+    byteLen (.array (vs ++ [x])) = byteLen (.array vs) + byteLen x ∧
+    byteLen (.array (x :: vs)) = byteLen x + byteLen (.array vs) ∧
+    byteLen (.array []) = 0 ∧
+    ((∀ v ∈ vs, byteLen v = k) → byteLen (.array vs) = vs.length * k) ∧
+    byteLen (.struct (.array vs :: fs)) = (vs.map byteLen).sum + (fs.map byteLen).sum ∧
+    byteLen (.enum n (.array vs :: fs)) = (vs.map byteLen).sum + (fs.map byteLen).sum := by
+  refine ⟨?_, ?_, ?_, ?_, ?_, ?_, ?_⟩
+  · simp [byteLen, sumLen_eq_sum, foldLen_eq]
+  · simp [byteLen, sumLen_eq_sum, foldLen_eq]
+  · simp [byteLen, sumLen_eq_sum, foldLen_eq]
+  · simp [byteLen, foldLen]
+  · intro hall
+    simp only [byteLen, foldLen_eq, sumLen_eq_sum, Nat.zero_add]
+    induction vs with
+    | nil => simp
+    | cons v vs ih =>
+      have h1 := hall v List.mem_cons_self
+      have h2 := ih fun w hw => hall w (List.mem_cons_of_mem _ hw)
+      simp [h1, h2, Nat.succ_mul]; omega
+  · simp [byteLen, sumLen, sumLen_eq_sum, foldLen_eq]
+  · simp [byteLen, sumLen, sumLen_eq_sum, foldLen_eq]
+
 /-- the length of a derived struct does not depend on how its fields are grouped / nested -/
 theorem derived_len_flatten (xs ys : List Val) :
     byteLen (.struct (.struct xs :: ys)) = byteLen (.struct (xs ++ ys)) := by
@@ -324,6 +353,13 @@ example : lookup "a" (srun [.new "a" 1 0, .set "a" .plain tU32 vU32]).1.slots =
     some ⟨⟨1, 0⟩, some ⟨tU32, vU32, 4, true⟩⟩ := by rfl
 
 example : byteLen vEn = 10 := by rfl
+
+/-- `[String; 3]` = ["abc", "", "z"]: 4 bytes — not `3 * 3` (first element times N) -/
+example : byteLen (.array [.str [97, 98, 99], .str [], .str [122]]) = 4 := by rfl
+/-- `[Option<u32>; 4]` = [None, Some, None, Some]: 8 — not 0 -/
+example : byteLen (.array [.none, .some (.prim 4 1), .none, .some (.prim 4 2)]) = 8 := by rfl
+/-- a derived struct with array fields `{ a: [String; 2], b: [Option<u16>; 3], tr }` -/
+example : byteLen (.struct [.array [.str [1], .str [1, 2, 3]], .array [.some (.prim 2 0), .none, .none], .fixed 0 0]) = 6 := by rfl
 
 /-- hypothesis of `failed_cast_returns_body_intact`: a u32 body asked for as f32 -/
 example : (Body.new {} tU32 vU32).2.tryCast (Body.new {} tU32 vU32).1 tF32 =
